@@ -910,18 +910,25 @@ func streamIndex(o opts) {
 	m := newMeta("index", o.seed)
 	m.Rule = "T-trace against IndexLts (rounds with a cache large enough never to displace: every split-store step, Delete, Invalidate, Clear and flush is replayed by the extracted model and the index / cache key sets are compared at every flush) and monitors on all rounds: deterministic interleavings of store (index step, cache step), Invalidate, InvalidateByFunc, Clear, direct removals and notification delivery on the real middleware (distinct keys concurrently; same-key overlap only in the known-finding probe), plus a late-notification probe through a blocking PathExtractor and free-running requests with evictions; at every quiescent point the keys reachable through the index must equal the cached keys that have a path; non-trivial = round with a removal whose notification is delivered after the key was re-cached; distinct by scenario parameters"
 	w := newTraceWriter(o.out, "index")
+	bases := map[*httpcache.Middleware][2]int64{}
 	newMW := func(maxSize int64, extractor func(string) string) *httpcache.Middleware {
 		cfg := httpcache.Config{MaxSize: maxSize, ShardCount: 1, EvictionPolicy: kioshun.LRU, DefaultTTL: time.Hour, DisableCleanup: true, PathExtractor: extractor}
+		base := httpcache.VerifSettleBase()
 		mw, err := httpcache.New(cfg)
 		must(err)
 		mw.SetKeyGenerator(httpcache.KeyWithoutQuery())
+		bases[mw] = base
 		return mw
 	}
-	quiescentCheck := func(mw *httpcache.Middleware, ctx string) {
-		for i := 0; i < 50; i++ {
-			mw.VerifFlushRemovals()
-			time.Sleep(100 * time.Microsecond)
+	// settle: every removal staged by this middleware's cache has been delivered to the index reconciliation
+	// (middlewares are used one at a time, so the process-wide counters are this middleware's)
+	settle := func(mw *httpcache.Middleware) {
+		if !mw.VerifSettle(bases[mw], 3*time.Second) {
+			m.count("index_settle_timeouts")
 		}
+	}
+	quiescentCheck := func(mw *httpcache.Middleware, ctx string) {
+		settle(mw)
 		cached := map[string]bool{}
 		for _, k := range mw.VerifCachedKeys() {
 			if httpcache.PathExtractorFromKey(k) != "" {
@@ -969,7 +976,7 @@ func streamIndex(o opts) {
 			if !traced {
 				return
 			}
-			mw.VerifFlushRemovals()
+			settle(mw)
 			emit(ints(3), &toks{})
 			var ik, ck []int64
 			for _, k := range mw.VerifIndexKeys() {
@@ -1186,7 +1193,7 @@ func streamIndex(o opts) {
 		if p1 == 331 && p2 == 331 {
 			stepUntil(2, -100) // Set r2
 			mw.VerifDeleteKey(key)
-			mw.VerifFlushRemovals() // r2 evicted, its notification delivered
+			settle(mw) // r2 evicted, its notification delivered
 			m.count("overlap_second_store_overtook")
 		}
 		stepUntil(1, -100) // Set r1
@@ -1196,7 +1203,7 @@ func streamIndex(o opts) {
 			}
 		}
 		kioshun.VerifSchedReset(false, 0)
-		mw.VerifFlushRemovals()
+		settle(mw)
 		cachedResp, _, cached := mw.VerifPeek(key)
 		idxResp, indexed := mw.VerifIndexIdentity(key)
 		if cached != indexed || (cached && cachedResp != idxResp) {
